@@ -566,6 +566,38 @@ impl<'a, 'ast> Visit<'ast> for Rewriter<'a> {
                 ));
             }
         }
+        if self.cfg.rmatch && name == "and_then" && m.args.len() == 1 {
+            // R-match: `o.and_then(|p| BODY)` on Option -> `match o { None => None, Some(p) => BODY }`
+            if let Expr::Closure(c) = &m.args[0] {
+                if c.inputs.len() == 1 && !has_escape(&c.body) {
+                    self.visit_expr(&m.receiver);
+                    self.visit_expr(&m.args[0]);
+                    let rr = self.r(m.receiver.span());
+                    let pr = self.r(c.inputs[0].span());
+                    let br = self.r(c.body.span());
+                    let whole = self.r(m.span());
+                    self.edits.replace(
+                        whole,
+                        vec![
+                            Piece::Lit("match ".into()),
+                            Piece::Src(rr.0, rr.1),
+                            Piece::Lit(" { None => None, Some(".into()),
+                            Piece::Src(pr.0, pr.1),
+                            Piece::Lit(") => ".into()),
+                            Piece::Src(br.0, br.1),
+                            Piece::Lit(" }".into()),
+                        ],
+                        "R-match",
+                    );
+                    self.note("R-match", m.span());
+                    return;
+                }
+            }
+            self.unsupported.push(format!(
+                "line {}: `and_then` with an argument outside R-match's shape",
+                self.sf.line_of(self.r(m.span()).0)
+            ));
+        }
         visit::visit_expr_method_call(self, m);
     }
 }
